@@ -46,6 +46,11 @@ claimed = {
    note="ASSUMED: writer/length agreement of the four map-typed notations (both range over a Go map). NOT covered: BATCH, RESULT, REGISTER, EVENT, ERROR codecs (loops needing further fold invariants), compressed bodies, the decoder half (consumes header + BodyLength) and hence the 'back-to-back frames' consequence. encLen(codec,message,version) is an abstract length valid while the message is not modified. Assumed stream contracts of io.Writer/bytes.Buffer/encoding/binary.",
    technique="contract-based deductive verification: ghost byte counters, fold invariants with instantiated defining equations, relational lemma functions over the real Encode/EncodedLength bodies",
    design="DESIGN.md §4 C03"),
+ "C08": dict(
+   text="Proof of the part of the property this repository owns, under assumed contracts of the LZ4 block functions: lz4.decompress succeeds on every valid block whatever its compression ratio (up to the format's 255:1), returns exactly the denoted number of bytes, fails only on invalid blocks, and its doubling loop terminates (measure obligation) - this completeness obligation could not be discharged on the original tree (sizes stopped at 8x; 10000 zero bytes failed to decompress) and is fixed; the LZ4/Snappy wrappers never panic and write only to their destination stream and read only their source (frame obligations against the PayloadCompressor contract).",
+   note="ASSUMED: the LZ4 block decoder/encoder contracts (third-party, partly assembly), snappy used without contract. NOT covered: decompress(compress(b)) == b end to end, Snappy's algorithm, contents flowing through bytes.Buffer. The claim is mechanism-level for the wrappers, as DESIGN.md states.",
+   technique="contract-based deductive verification: loop invariants and termination measure over assumed library contracts",
+   design="DESIGN.md §4 C08"),
 }
 
 not_applicable = {
